@@ -33,7 +33,7 @@ POINTER_CHECKS = ("NullPointerDereference", "MisalignedPointerDereference")
 ALLOW = [
     ("", "unwrap", "RwLock::<T>::read", "configuration flags (setting::*): the lock is poisoned only if a writer panicked; nothing writes them after start-up - not guest-controllable"),
     ("bus::Bus::write", "unwrap", "upgrade", "Weak<RefCell<ModuleManager>>::upgrade: the Cpu owns the Rc for its whole life, the Bus is a field of the Cpu"),
-    ("cpu::Cpu::run", "from_secs_f64", "", "host pacing: the argument is count_1msec (< 20765, checked) / 2e7, finite and non-negative"),
+    ("cpu::Cpu::run", "from_secs_f64", "", "host pacing: the argument is non-negative and finite by construction - decided by the sign analysis of rules/c13 (floatsign), whose finding pacing|panic|... is harvested here"),
     ("cpu::Cpu::run", "Overflow:state_sum", "", "64-bit total of executed states: needs 2^64 states (29,000 years of emulated time)"),
 ]
 
